@@ -24,24 +24,30 @@ def run(ck: Check):
     ck.lean_obligations(MODULES)
     ck.build_driver(["Lex", "Parse", "Pipe"])
     quick = ck.tier == "quick"
+    # all streams first, attribution afterwards (a broken obligation of one stage must not hide a concrete
+    # failing input another stage's stream produces)
     lexlib.lex_streams(ck, ck.tier, only=["relayout"])
-    if ck.is_broken():
-        lexlib.lex_search(ck, "C10")
-        return ck.finish()
     parselib.run_pairs(ck, 1000 if quick else 20000)
-    if ck.is_broken():
-        parselib.parse_search(ck)
-        return ck.finish()
     pipelib.pipe_stream(ck, "layouts", 600 if quick else 20000)
     if ck.tier == "thorough":
         ck.leanchecker(MODULES)
     if ck.is_broken():
-        rep = pipelib.report(ck, "composed model and real pipeline disagree on a re-laid-out program")
-        if rep is not None:
-            rep["broken"] = ck.broken[:5]
-            ck.report_violation(rep, no_input_found=(rep["kind"] != "impl-vs-oracle"))
+        fams = [f.get("family") for f in ck.oracle_fails] + [d.get("family") for d in ck.disagreements]
+        for b in ck.broken:
+            t = " ".join(str(v) for v in b.values())
+            fams.append("lex" if ("Lex" in t or "Lexical" in t) else "parse" if ("Parse" in t or "Pratt" in t) else None)
+        fam = next((f for f in fams if f), None)
+        if fam == "lex":
+            lexlib.lex_search(ck, "C10")
+        elif fam == "parse":
+            parselib.parse_search(ck)
         else:
-            ck.report_violation({"kind": "tie-broken", "broken": ck.broken[:10], "requests": []}, no_input_found=True)
+            rep = pipelib.report(ck, "composed model and real pipeline disagree on a re-laid-out program")
+            if rep is not None:
+                rep["broken"] = ck.broken[:5]
+                ck.report_violation(rep, no_input_found=(rep["kind"] != "impl-vs-oracle"))
+            else:
+                ck.report_violation({"kind": "tie-broken", "broken": ck.broken[:10], "requests": []}, no_input_found=True)
     return ck.finish()
 
 
